@@ -1,7 +1,7 @@
 /- Line-protocol verbs for C12.
 
    classify <kind>                        →  <status> <label-hex> relay|generated
-   stream  fault=… id=… kind=… up=… close=… minor=… head=… framing=… body=…   →  <obs>
+   stream  fault=… id=… kind=… up=… uptls=… close=… minor=… head=… framing=… body=…   →  <obs>
    holds   id=… kind=… … obs=<obs with , for space>                   →  true | false <reason>
    loop    <o|c|x,…>                      →  closed <n> | open <errorsN>
    h2err   <dial-failed|dial-timeout|tls-failed|eof|bad-preface>      →  o|c|x
@@ -11,11 +11,17 @@
                                           →  same shape: the relayed transport-level CONNECT rejection
                                              (hdr = the upstream proxy's header map, canonical keys)
 
-   kinds:   op:<dial|read|write|remote|local>:<0|1>  dns:<0|1>  refused  reset  eof  tls-record:<0|1>
+   relay   method=<hex> status=… hdr=<name,v,…;…> major=… minor=… cl=<int> dup=<0|1>
+                                          →  wrote <connect-ok|header-only|sse|chunk|plain> <readsBody> <tunnelFollows> |
+                                             closed | panicked      (what `handle` makes of an upstream reply the
+                                             transport accepted; method CONNECT: the upstream proxy's reply to a
+                                             client CONNECT, `handleConnectRequest`)
+
+   kinds:   op:<dial|read|write|remote|local|proxyconnect>:<0|1>  op-chain:<outer>:<inner+inner…>:<0|1>  dns:<0|1>  refused  reset  eof  tls-record:<0|1>
             tls-cert  tls-ech  tls-alert  tls-alert-remote  tls-alert-local  tls-generic  tls-hs-timeout
             martian:<n>  auth  deny  prohibited  canceled  deadline  connect-rejected:<n>
             status-text:<n>:<0|1>  malformed  resp-header-timeout  other
-   faults:  none  dial-refused  dial-timeout  tls:<expired|wrong-name|untrusted|garbage|plain-http|not-tls|
+   faults:  none  dial-refused  dial-timeout  dial-reset:<dial|read|write>  tls:<expired|wrong-name|untrusted|garbage|plain-http|not-tls|
             alert|local-alert|closed|reset|stall>  connect:rejected:<s>:<framed>  connect:rejected-cut:<s>:<n>:<k>  connect:cut:<k>:<reset>:<surfaces>
             connect:malformed  connect:timeout  head-cut:<k>:<reset>:<surfaces>  head-malformed
             body-cut:<k>:<reset>:<lost>
@@ -33,11 +39,13 @@ open Wire
 
 def decodeNetOp : String → Option NetOp
   | "dial" => some .dial | "read" => some .read | "write" => some .write
-  | "remote" => some .remoteError | "local" => some .localError | _ => none
+  | "remote" => some .remoteError | "local" => some .localError | "proxyconnect" => some .proxyconnect | _ => none
 
 def decodeKind (s : String) : Option ErrKind :=
   match s.splitOn ":" with
   | ["op", o, t] => do some (.opError (← decodeNetOp o) (← boolOf t))
+  | ["op-chain", o, inner, t] => do
+    some (.opChain (← decodeNetOp o) (← (inner.splitOn "+").mapM decodeNetOp) (← boolOf t))
   | ["dns", t] => do some (.dns (← boolOf t))
   | ["refused"] => some .connRefused
   | ["reset"] => some .connReset
@@ -81,12 +89,13 @@ def decodeExchange (t : List String) : Option Exchange := do
   let id ← natOf (kvD t "id" "0")
   let kind ← decodeReqKind (kvD t "kind" "plain")
   let up ← boolOf (kvD t "up" "0")
+  let uptls ← boolOf (kvD t "uptls" "0")
   let cl ← boolOf (kvD t "close" "0")
   let minor ← natOf (kvD t "minor" "1")
   let head ← natOf (kvD t "head" "0")
   let fr ← decodeFraming (kvD t "framing" "cl:0")
   let body ← natOf (kvD t "body" "0")
-  some { id := id, kind := kind, viaUpstream := up, reqClose := cl, clientMinor := minor, headLen := head, framing := fr, bodyLen := body }
+  some { id := id, kind := kind, viaUpstream := up, upstreamTLS := uptls, reqClose := cl, clientMinor := minor, headLen := head, framing := fr, bodyLen := body }
 
 def decodeTLSFault : String → Option TLSFault
   | "expired" => some .expired | "wrong-name" => some .wrongName | "untrusted" => some .untrusted
@@ -99,6 +108,7 @@ def decodeFault (s : String) : Option Fault :=
   | ["none"] => some .none
   | ["dial-refused"] => some .dialRefused
   | ["dial-timeout"] => some .dialTimeout
+  | ["dial-reset", o] => do some (.dialReset (← decodeNetOp o))
   | ["tls", f] => do some (.tls (← decodeTLSFault f))
   | ["connect", "rejected", st, fr] => do some (.connectReply (.rejected (← natOf st) (← boolOf fr)))
   | ["connect", "rejected-cut", st, n, k] => do some (.connectReply (.rejectedCut (← natOf st) (← natOf n) (← natOf k)))
@@ -146,6 +156,15 @@ def decodeHMap (s : String) : Option C16.HMap :=
 def encodeWire (w : WireResp) : String :=
   let d := match w.declaredLength with | some n => toString n | none => "none"
   s!"{w.status} {w.minor} {ofBool w.keepAlive} {d} {w.body.length} {Req.encodeFieldMap (Req.mergeFields w.fields)}"
+
+def encodeWriter : Writer → String
+  | .connectOK => "connect-ok" | .headerOnly => "header-only" | .sseFlush => "sse"
+  | .chunkFlush => "chunk" | .plain => "plain"
+
+def encodeRelayed : Relayed → String
+  | .wrote w t => s!"wrote {encodeWriter w} {ofBool w.readsBody} {ofBool t}"
+  | .closedWithoutResponse => "closed"
+  | .panicked => "panicked"
 
 def decodeResults (s : String) : Option (List HandleResult) :=
   (splitList s).mapM fun a =>
@@ -226,6 +245,20 @@ def handle : List String → String
     match r? with
     | none => "bad-op"
     | some w => encodeWire w
+  | "relay" :: toks =>
+    let r? : Option Relayed := do
+      let m ← bytesOfHex (kvD toks "method" "474554")
+      let st ← natOf (kvD toks "status" "200")
+      let h ← decodeHMap (kvD toks "hdr" "~")
+      let major ← natOf (kvD toks "major" "1")
+      let minor ← natOf (kvD toks "minor" "1")
+      let cl ← intOf (kvD toks "cl" "0")
+      let dup ← boolOf (kvD toks "dup" "0")
+      let rf : ResFacts := { protoMajor := major, protoMinor := minor, contentLength := cl, ctParamsConflict := dup }
+      some (if m == methodConnect then relayConnect st h rf else relay m st h rf)
+    match r? with
+    | none => "bad-op"
+    | some r => encodeRelayed r
   | _ => "bad-op"
 
 end C12
